@@ -129,6 +129,7 @@ package bcl
 //@   assert [C08] position_is_the_end_offset_of_the_token: at format#1: $pos == t.pos
 //@   assert [C08] at_end_designates_the_end_of_input_only: at Print#1: t.typ == tEOF
 //@   assert [C08] token_is_quoted_unless_end_or_lexical_error: at Printf#2: t.typ != tEOF && t.typ != tERR && t.typ != tFAIL
+//@   assert [C08] the_quoted_text_is_the_whole_token: at Printf#2: len($a) == 1 && $a[0] == VStr(t.val)
 //@   assert [C08] message_follows: at Printf#3: true
 //@   modifies p.hadError, p.panicMode
 //@   ghost diags = g.diags + 1
